@@ -26,10 +26,11 @@ def run(ctx):
             "extraction: ExtrOcamlBasic only; OCaml driver ocaml/C12/main.ml + ocaml/common/conv.ml",
             "correspondence harness harness/cmd/hC12: real engine.Engine with a gun factory recording (InstanceID, bind instant), "
             "recording wrapper around the real startup schedule (token instants), cause flags (provider !ok, shared rps schedule end, "
-            "external cancel, injected NewGun failure); real schedule.NewInstanceStep drained from a known start instant",
+            "external cancel, injected creation failure: NewGun / gun.Bind / rps schedule factory); real schedule.NewInstanceStep drained from a known start instant",
             "modelled, not verified: startup schedule = abstract token stream (C02); timers never fire early and the clock is monotone "
             "(Go runtime); which engine events cancel the start context (awaitRun, C05) is modelled by labelled cancel sources and "
-            "observed by the harness; creation failures of instances other than the first are a cancel source (InstanceFailed)",
+            "observed by the harness; that a received creation failure of a later instance cancels the start context is the AAwait "
+            "step of Model/StartAsync.v, observed as run outcome != ok and no gun bound 100 ms after the failure",
         ],
         assumptions=["Go timers never fire before their deadline; time.Now is monotone",
                      "the startup schedule hands out its tokens in order (Next contract, C02)"],
